@@ -54,6 +54,7 @@ pub fn run(args: &[String]) {
         let span = match kind { Kind::VdPStiff => rng.range(1.0, 900.0), Kind::Robertson => 10f64.powf(rng.range(-1.0, 3.0)), Kind::Blowup => rng.range(0.5, 2.0), _ => match rng.below(8) { 0 => 1e-9, 1 => 30.0, _ => rng.range(0.2, 3.0) } };
         let back = rng.chance(0.25) && !matches!(kind, Kind::VdPStiff | Kind::Robertson | Kind::Stiff);
         let x0 = if rng.chance(0.3) { rng.range(-2.0, 2.0) } else { 0.0 };
+        let x0 = if rng.chance(0.1) { x0 + [1e3, -1e4, 1e5, -3e5][rng.below(4)] * rng.range(0.5, 1.5) } else { x0 };
         let xend = if back { x0 - span } else { x0 + span };
         // every third case: tight tolerances on a smooth problem, so that the order climbs to 5
         let rtol_s = if id % 3 == 0 { 10f64.powf(-rng.range(7.0, 10.0)) } else { 10f64.powf(-rng.range(2.0, 7.0)) };
